@@ -113,7 +113,9 @@ pub struct AgentLogCase {
     /// with a line of text before the PEM block; 7 key file = certificate followed by the key;
     /// 8 key file with a preamble that is not UTF-8 (Latin-1 friendly name, as PKCS#12 exports have);
     /// 9 key file starting with a UTF-8 byte-order mark; 10 key file = key without its END line
-    /// followed by the certificate (a second BEGIN line inside the open section)
+    /// followed by the certificate (a second BEGIN line inside the open section); 11 the bare
+    /// base64 body on one line, armour lines lost (a secret-store export); 12 the body lines
+    /// without the armour lines
     #[serde(default)]
     pub layout: u8,
 }
@@ -147,6 +149,14 @@ fn layout_files(crt: &str, keyfile: &str, layout: u8) -> Option<(String, String,
         6 => (cert.clone(), format!("Bag Attributes: client key\n{key}")),
         7 => (cert.clone(), format!("{cert}{key}")),
         9 => (cert.clone(), format!("\u{feff}{key}")),
+        11 => (
+            cert.clone(),
+            format!("{}\n", key.lines().filter(|l| !l.starts_with("-----")).collect::<String>()),
+        ),
+        12 => (
+            cert.clone(),
+            key.lines().filter(|l| !l.starts_with("-----")).map(|l| format!("{l}\n")).collect(),
+        ),
         10 => (
             cert.clone(),
             format!(
@@ -215,7 +225,7 @@ impl Prop for C20Agent {
     }
     fn rule(&self) -> String {
         "the unmodified agent binary (one-shot, `remote` target over TLS on loopback) with one of 5 \
-         client keys in 11 layouts of the certificate / key files (every layout also as a fixed case at -vvvv), 0..4 -v flags, optionally a RUST_LOG directive, and a successful or failing \
+         client keys in 13 layouts of the certificate / key files (every layout also as a fixed case at -vvvv), 0..4 -v flags, optionally a RUST_LOG directive, and a successful or failing \
          run (server closes after the hello, IRR unreachable, nothing listening); its complete \
          stderr (ANSI sequences removed) is searched for the key: every line of the PEM body, the \
          whole DER and every secret component of it in clear / hex / base64 (all alignments) / \
@@ -230,7 +240,7 @@ impl Prop for C20Agent {
     fn fixed_cases(&self) -> Vec<AgentLogCase> {
         // every key-file layout at the highest verbosity, with an RSA and an Ed25519 key
         let mut v = Vec::new();
-        for layout in 0u8..11 {
+        for layout in 0u8..13 {
             for key in [0u8, 4] {
                 v.push(AgentLogCase { key, verbosity: 4, rust_log: None, outcome: 0, layout });
             }
@@ -243,7 +253,7 @@ impl Prop for C20Agent {
             prop_oneof![1 => Just(0u8), 1 => Just(1u8), 2 => Just(2u8), 2 => Just(3u8), 3 => Just(4u8)],
             prop::option::weighted(0.4, 0u8..RUST_LOG.len() as u8),
             prop_oneof![4 => Just(0u8), 1 => Just(1u8), 1 => Just(2u8), 1 => Just(3u8)],
-            prop_oneof![3 => Just(0u8), 7 => 1u8..11],
+            prop_oneof![3 => Just(0u8), 7 => 1u8..13],
         )
             .prop_map(|(key, verbosity, rust_log, outcome, layout)| AgentLogCase {
                 key,
